@@ -222,7 +222,8 @@ def job(item):
             continue
         if mine == "oo":
             # an oscillating divergence is reported by sympy's limit as AccumBounds(-oo, oo): not a finite value either
-            unbounded = isinstance(lim, sp.AccumBounds) and (lim.min == -sp.oo or lim.max == sp.oo)
+            # ... and with a symbolic initial value as oo*sign(2*y0 + 1): anything that mentions an infinity is not a finite value
+            unbounded = (isinstance(lim, sp.AccumBounds) and (lim.min == -sp.oo or lim.max == sp.oo)) or sp.sympify(lim).has(sp.oo, -sp.oo, sp.zoo)
             if not (lim in (sp.oo, -sp.oo, sp.zoo) or unbounded):
                 out["records"].append({"kind": "violation", "key": f"{pid}|E({g})|limit", "tag": tag, "what": f"E({g}) after the loop diverges but is reported as {lim}", "replay": {"text": text, "goal": g}})
             out["limits"] += 1
